@@ -108,7 +108,8 @@ CLAIMS = {
        "harness serves this property (a HashMap with symbolic keys does not terminate under CBMC)."
        "Added later: every static / thread_local item of the crate is enumerated from the MIR of the current tree; none may be writable after its one-time initialisation (no static mut, no thread_local, no interior mutability inside a static). Degenerate solver part (a finite table), stated as an obligation so the evidence lists the sites; replayed by an isolation battery (two documents of equal shape, one compliant, one not, all built-ins)."
        "Added later: every call that reads an environment variable, the local time zone, a clock or a random source is enumerated (only now() and the elapsed-time stamps are allowed); TZ / LANG / HOME replay."
-       " Added last: colour decisions - the functions that format a ColoredString through its own Display (which consults CLICOLOR / NO_COLOR / isatty) are enumerated from MIR and must be console reporters / stderr messages only; replay runs every structured format of validate and test under CLICOLOR_FORCE / NO_COLOR / CLICOLOR=0.",
+       " Added last: colour decisions - the functions that format a ColoredString through its own Display (which consults CLICOLOR / NO_COLOR / isatty) are enumerated from MIR and must be console reporters / stderr messages only; replay runs every structured format of validate and test under CLICOLOR_FORCE / NO_COLOR / CLICOLOR=0."
+       " Console content: the ReadCursor behind the `Code:` snippets (shared per data file, driven in hash order) answers independently of its seek history - one inductive step of seek_line / next from an arbitrary cursor state (defect D19 found and fixed: wrong line numbers / missing snippets with three or more failing resources).",
   design="0b/C05"),
  "C06": dict(
   text="Bounded model checking of the two pure exit-code kernels: commands::test::get_exit_code folded over any sequence of <= 4 "
